@@ -32,18 +32,20 @@ const (
 	vRead            // SELECT id FROM foo ORDER BY id
 	vEmpty           // "" (skipped by both paths, produces no result)
 	vRet             // INSERT ... RETURNING id with ForceQuery (write executed through the query path)
-	vReadPrep        // SELECT from a missing table: read that fails when prepared
+	vReadPrep        // SELECT from a missing table with ForceQuery: query path, fails when prepared
 	vBegin           // explicit BEGIN
 	vCommit          // explicit COMMIT
 	vRollback        // explicit ROLLBACK
+	vRetStep         // INSERT of the existing key ... RETURNING id with ForceQuery: query path, fails at step
 	vNumClasses
 )
 
-var verifClassName = []string{"ok", "prep", "step", "read", "empty", "ret", "readprep", "begin", "commit", "rollback"}
+var verifClassName = []string{"ok", "prep", "step", "read", "empty", "ret", "readprep", "begin", "commit", "rollback", "retstep"}
 
 const (
 	verifSQLPrep     = "INSERT INTO nonexistent(id) VALUES(5)"
 	verifSQLStep     = "INSERT INTO foo(id,name) VALUES(1,'dup')"
+	verifSQLRetStep  = "INSERT INTO foo(id,name) VALUES(1,'dup') RETURNING id"
 	verifSQLRead     = "SELECT id FROM foo ORDER BY id"
 	verifSQLReadPrep = "SELECT id FROM nonexistent"
 	verifSQLBegin    = "BEGIN"
@@ -80,6 +82,8 @@ func verifSQLOf(class, pos int) string {
 		return verifSQLPrep
 	case vStep:
 		return verifSQLStep
+	case vRetStep:
+		return verifSQLRetStep
 	case vRead:
 		return verifSQLRead
 	case vReadPrep:
@@ -104,6 +108,8 @@ func verifClassify(q string) (int, int64) {
 		return vPrep, 0
 	case verifSQLStep:
 		return vStep, verifBaseRow
+	case verifSQLRetStep:
+		return vRetStep, verifBaseRow
 	case verifSQLRead:
 		return vRead, 0
 	case verifSQLReadPrep:
@@ -171,7 +177,7 @@ func (l *verifLite) prepare(class int) error {
 // step runs a prepared statement to completion.
 func (l *verifLite) step(class int, id int64) error {
 	switch class {
-	case vOK, vRet, vStep:
+	case vOK, vRet, vStep, vRetStep:
 		if l.has(id) {
 			return errors.New(verifMsgUnique) // statement rolled back, transaction stays open
 		}
@@ -254,7 +260,7 @@ func verifLiteQuery(q string) (*sql.Rows, error) {
 		return nil, err
 	}
 	m := &verifRowsM{rs: &sql.Rows{}, class: class, id: id}
-	if class == vRead || class == vRet {
+	if class == vRead || class == vRet || class == vRetStep {
 		m.cols = []string{"id"}
 	}
 	verifRows = m
@@ -275,6 +281,7 @@ func verifConnExec(c *sql.Conn, ctx context.Context, q string, args ...any) (sql
 func verifConnQuery(c *sql.Conn, ctx context.Context, q string, args ...any) (*sql.Rows, error) {
 	return verifLiteQuery(q)
 }
+
 // like the real methods, the models dereference their receiver
 func verifTxCheck(t *sql.Tx) {
 	if t == nil || t != verifTheTx {
@@ -338,7 +345,7 @@ func verifRowsNext(rs *sql.Rows) bool {
 			m.vals = verifL.visible()
 		} else if err := verifL.step(m.class, m.id); err != nil {
 			m.err = err
-		} else if m.class == vRet {
+		} else if m.class == vRet || m.class == vRetStep {
 			m.vals = []int64{m.id}
 		}
 	}
@@ -423,8 +430,8 @@ const (
 type verifExpRes struct {
 	pos     int
 	kind    int
-	msg     string  // kErr
-	id      int64   // kE of an INSERT: last insert id (rows affected 1)
+	msg     string // kErr
+	id      int64  // kE of an INSERT: last insert id (rows affected 1)
 	checkID bool
 	vals    []int64 // kQ
 }
@@ -480,7 +487,7 @@ func verifSpec(s verifShape, variantPrep, variantNoROE bool) verifExp {
 			}
 		case vPrep, vReadPrep:
 			fail = verifMsgNoTable
-		case vStep:
+		case vStep, vRetStep:
 			fail = verifMsgUnique
 		case vRead:
 			if s.unified {
@@ -690,32 +697,33 @@ func verifCompare(s verifShape, o verifObs, e verifExp, direct bool) string {
 // ---------------------------------------------------------------------------------------------
 // entries
 
-var verifAllClasses = []int{vOK, vPrep, vStep, vRead, vEmpty, vRet, vReadPrep, vBegin, vCommit, vRollback}
+var verifAllClasses = []int{vOK, vPrep, vStep, vRead, vEmpty, vRet, vReadPrep, vBegin, vCommit, vRollback, vRetStep}
 var verifCoreClasses = []int{vOK, vPrep, vStep, vRead, vEmpty}
 
-var verifExplicitClasses = []int{vOK, vPrep, vStep, vRead, vRet, vCommit, vRollback}
+var verifExplicitClasses = []int{vOK, vPrep, vStep, vRead, vRet, vCommit, vRollback, vRetStep}
 
 func verifC13Shape(unified bool) verifShape {
 	s := verifShape{unified: unified}
 	// bounds (quick / thorough), n = number of statements drawn:
-	//   band 0 "long":     core classes {ok, prep, step, read, empty},          n = 1..4 / 1..5
-	//   band 1 "wide":     all ten classes,                                     n = 1..2 / 1..4
-	//   band 2 "leftover": all ten classes, the write connection is still inside an explicit
+	//   band 0 "long":     core classes {ok, prep, step, read, empty},          n = 1..3 and 4 with Transaction=true / 1..5, and
+	//                      6 with Transaction=true, RollbackOnError=false (thorough)
+	//   band 1 "wide":     all eleven classes,                                     n = 1..2 / 1..3
+	//   band 2 "leftover": all eleven classes, the write connection is still inside an explicit
 	//                      transaction (one pending row) left by an earlier request, n = 1..2 / 1..3
 	//   band 3 "explicit": Transaction=false, BEGIN followed by n statements of
-	//                      {ok, prep, step, read, ret, COMMIT, ROLLBACK},       n = 1..3 / 1..4
+	//                      {ok, prep, step, read, ret, retstep, COMMIT, ROLLBACK},       n = 1..3 / 1..4
 	band := verifChoice("band", 4)
 	thorough := verifTier() == 1
 	maxN, classes := 4, verifCoreClasses
 	switch band {
 	case 0:
 		if thorough {
-			maxN = 5
+			maxN = 6
 		}
 	case 1:
 		maxN, classes = 2, verifAllClasses
 		if thorough {
-			maxN = 4
+			maxN = 3
 		}
 	case 2:
 		maxN, classes = 2, verifAllClasses
@@ -730,10 +738,18 @@ func verifC13Shape(unified bool) verifShape {
 		}
 	}
 	n := 1 + verifChoice("n", maxN)
-	if band != 3 {
-		s.tx = verifChoice("transaction", 2) == 1
+	switch {
+	case n == 6:
+		s.tx = true
+	case n == 4 && band == 0 && !thorough:
+		s.tx = true
+		s.roe = verifChoice("rollbackOnError", 2) == 1
+	default:
+		if band != 3 {
+			s.tx = verifChoice("transaction", 2) == 1
+		}
+		s.roe = verifChoice("rollbackOnError", 2) == 1
 	}
-	s.roe = verifChoice("rollbackOnError", 2) == 1
 	if band == 3 {
 		s.kinds = append(s.kinds, vBegin)
 	}
@@ -750,7 +766,7 @@ func verifC13Shape(unified bool) verifShape {
 func verifC13Request(s verifShape) *command.Request {
 	req := &command.Request{Transaction: s.tx, RollbackOnError: s.roe}
 	for pos, c := range s.kinds {
-		req.Statements = append(req.Statements, &command.Statement{Sql: verifSQLOf(c, pos), ForceQuery: c == vRet})
+		req.Statements = append(req.Statements, &command.Statement{Sql: verifSQLOf(c, pos), ForceQuery: c == vRet || c == vRetStep || c == vReadPrep})
 	}
 	return req
 }
@@ -828,6 +844,9 @@ func verifC13Check(unified bool) {
 		}
 		if r.kind == kQ && len(r.vals) == 1 && r.vals[0] >= 100 {
 			verifReach("returning-row")
+		}
+		if r.kind == kErr && s.kinds[r.pos] == vRetStep {
+			verifReach("returning-fails-at-step")
 		}
 	}
 }
